@@ -186,7 +186,7 @@ def handle (j : Json) : R Json := do
     | .ok (q, log) =>
       -- `good_run`: the decidable side conditions of `Props/C05Dag.lean: optimizeDag_sound` hold for this run
       pure (Json.mkObj [("prog", progJson q), ("changed", jArr (log.map Json.bool)), ("good_run", Json.bool (goodRun pats n p)),
-        ("wf_top", Json.bool p.wfTop), ("pure_lang", Json.bool p.pureLang), ("no_top_inline", Json.bool (noTopInline pats p))])
+        ("wf_top", Json.bool p.wfTop), ("pure_lang", Json.bool p.pureLang), ("fuel_run", Json.bool (fuelRun pats n p)), ("no_top_inline", Json.bool (noTopInline pats p))])
     | .error e => pure (errJson e)
   | k => throw s!"unknown kind {k}"
 
